@@ -151,7 +151,9 @@ class CSSCharsetRule(cssrule.CSSRule):
             )
         else:
             try:
-                codecs.lookup(encoding)
+                if codecs.lookup(encoding).name == 'css':
+                    # the css codec refuses its own name in an @charset rule
+                    raise LookupError(encoding)
                 # must be a text encoding a sheet can be serialised with
                 'a'.encode(encoding, 'escapecss')
             except (LookupError, UnicodeError):
